@@ -368,6 +368,13 @@ Definition step2 (w : world) (op : list (list Z)) : world * result :=
           if forallb (fun b => b) ok then 1 :: zs_of_q (qdiv num (qsum (snd pw))) else [0; 0; 1] in
       (w, [ok1; flat_map (one (x_read m)) (combine pixs wts);
            flat_map (one (d_read cellv dcell d)) (combine pixs wts)])
+    else if code =? 37 then
+      (* lookup with pixel numbers of a finer resolution: [37];[h];[-];[r];pixels
+         L1: the value of the containing pixel, read (p / r); L0: the value at p of the dense upgrade *)
+      let r := gz op 3 0 in
+      let du := d_upgrade cellv dcell r d in
+      (w, [ok1; zs_of_cells (map (fun p => read cellv dcell m (p / r)) (grp op 4));
+           zs_of_cells (map (d_read cellv dcell du) (grp op 4))])
     else if code =? 28 then
       (* check_bits over all pixels: [28];[h];[-];[bits integer] *)
       let bits := gz op 3 0 in
